@@ -86,4 +86,23 @@ def encode (c : Cmd) (env : Env) : Option Bytes := do
   else if (layoutM c.marshal).isNone then none      -- conditional / repeated fields: not covered by this encoder
   else pure (UInt8.ofNat (pw.length / 2) :: pw ++ natLe 2 d.length ++ d)
 
+/-- straight-line except for loops over list fields (arrays of integers or of 2.2.1.4 structures): no field is
+    emitted under a condition and nothing goes ahead of the parameter block -/
+def loopsOnly : List MStmt → Bool
+  | [] => true
+  | .ifNonZero _ _ :: _ | .ifNonZeroArr _ _ :: _ | .ifWordCount _ _ :: _ | .subHead _ _ :: _ => false
+  | _ :: r => loopsOnly r
+
+/-- the same rules for the structures whose `Marshal` loops over a list field: an array is the concatenation of its
+    elements' encodings in order (`encField` on `.uintArr` / `.nestedList`), everything else as in `encode`.
+    `conforms_sound` does not reach these commands (their programs are not straight-line); the implementation is
+    compared with this encoder on generated values only. -/
+def encodeLists (c : Cmd) (env : Env) : Option Bytes := do
+  let p ← encBlock c env .P
+  let d ← encBlock c env .D
+  let pw := andxBlock c.isAndX ++ p
+  if pw.length % 2 = 1 ∨ pw.length / 2 > 255 ∨ d.length > 65535 then none
+  else if !loopsOnly c.marshal then none
+  else pure (UInt8.ofNat (pw.length / 2) :: pw ++ natLe 2 d.length ++ d)
+
 end Manticore.Spec.Cifs
